@@ -162,6 +162,11 @@ func c02Draw(rt *rapid.T) *gen.Model {
 
 func TestC02(t *testing.T) {
 	rec := ev.New("C02", c02Rule)
+	defer func() {
+		if !rec.Flush() {
+			t.Fail()
+		}
+	}()
 	rec.Assume("domain restrictions from the property: names are DSL identifiers, every relation with a direct assignment has >= 1 restriction, every condition >= 1 parameter, " +
 		"expressions carry no '}', '#', '//' and no surrounding whitespace")
 	rec.Require("verdict:inexpressible", 0.15)
@@ -218,9 +223,6 @@ func TestC02(t *testing.T) {
 			rt.Fatalf("%s\n%s", msg, m.String())
 		}
 	})
-	if !rec.Flush() {
-		t.Fail()
-	}
 }
 
 func TestReplayC02(t *testing.T) {
